@@ -1,7 +1,10 @@
 package props
 
 import (
+	"bytes"
 	"fmt"
+	"os/exec"
+	"regexp"
 	"sort"
 	"strings"
 	"sync"
@@ -274,10 +277,117 @@ func runC01(c *fw.Check) {
 		}
 	}
 	c.Extra["library_kinds_not_in_catalogue"] = missing
+	if c.Quick() {
+		c01stress(c, 25, []int{40})
+	} else {
+		c01stress(c, 300, []int{40, 200})
+	}
 	if len(all) > 0 {
 		c.Sample(map[string]interface{}{"entry": all[len(all)/2].Entry, "deviations": all[len(all)/2].Devs, "module": gen.Module([]gen.Variant{all[len(all)/2]})})
 		c.Sample(map[string]interface{}{"entry": all[len(all)-1].Entry, "deviations": all[len(all)-1].Devs, "module": gen.Module([]gen.Variant{all[len(all)-1]})})
 	}
+}
+
+var reNaNLit = regexp.MustCompile(`0x[7F]FF[0-9A-F]{13}|0xH[7F][C-F][0-9A-F]{2}`)
+
+// c01stress is the supplementary (non-deciding) corpus: llvm-stress programs for a fixed range of
+// seeds and their opt-transformed variants, through the same oracle.
+func c01stress(c *fw.Check, seeds int, sizes []int) {
+	if _, err := exec.LookPath("llvm-stress-14"); err != nil {
+		c.Extra["stress_corpus"] = "llvm-stress-14 not installed"
+		return
+	}
+	type job struct {
+		seed, size int
+		pass       string
+	}
+	var jobs []job
+	for s := 0; s < seeds; s++ {
+		for _, sz := range sizes {
+			for _, pass := range []string{"", "-mem2reg", "-instcombine", "-O1"} {
+				jobs = append(jobs, job{s, sz, pass})
+			}
+		}
+	}
+	var mu sync.Mutex
+	ok, skipped := 0, 0
+	fw.ParallelFor(len(jobs), func(i int) {
+		j := jobs[i]
+		gen := exec.Command("llvm-stress-14", "-seed", fmt.Sprint(j.seed), "-size", fmt.Sprint(j.size), "-o", "-")
+		var out bytes.Buffer
+		gen.Stdout = &out
+		if gen.Run() != nil {
+			return
+		}
+		x := out.String()
+		if j.pass != "" {
+			o := exec.Command("opt-14", "-S", j.pass, "-o", "-", "-")
+			o.Stdin = strings.NewReader(x)
+			var oo bytes.Buffer
+			o.Stdout = &oo
+			if o.Run() != nil {
+				return
+			}
+			x = oo.String()
+		}
+		name := fmt.Sprintf("llvm-stress seed=%d size=%d %s", j.seed, j.size, j.pass)
+		rep := func(kind, what, detail, printed string) {
+			c.Violation("stress/"+kind, genCase{Entry: name, Input: fw.Trunc(x, 4000), Printed: fw.Trunc(printed, 2000), What: what, Detail: fw.Trunc(detail, 1500)})
+		}
+		m, errs, pan := parseTry(x)
+		if pan != "" {
+			rep("llir-parse-panics", "parser panics on an llvm-stress program", pan, "")
+			return
+		}
+		if errs != "" {
+			rep("llir-rejects", "parser rejects an llvm-stress program", errs, "")
+			return
+		}
+		var y string
+		if p := fw.Try(func() { y = m.String() }); p != "" {
+			rep("print-panics", "String() panics", p, "")
+			return
+		}
+		dy, ey, oky, _ := fw.AsDis(y)
+		dx, _, okx, _ := fw.AsDis(x)
+		if !okx {
+			mu.Lock()
+			skipped++
+			mu.Unlock()
+			return
+		}
+		if !oky {
+			if !fw.IsToolCrash(ey) {
+				rep("llvm-rejects-printed", "LLVM rejects the printed module", ey, y)
+			}
+			return
+		}
+		if dx != dy {
+			a, b := llcanon.Diff(llcanon.Canon(dx), llcanon.Canon(dy))
+			if len(a)+len(b) > 0 {
+				var sa, sb []string
+				for _, e := range a {
+					sa = append(sa, e.Text)
+				}
+				for _, e := range b {
+					sb = append(sb, e.Text)
+				}
+				kind := "meaning-changed"
+				if reNaNLit.ReplaceAllString(strings.Join(sa, "\n"), "NAN") == reNaNLit.ReplaceAllString(strings.Join(sb, "\n"), "NAN") {
+					kind = "meaning-changed/nan-payload-only" // the C10 representation finding (NaN payload / quiet bit)
+				}
+				rep(kind, "LLVM reads the printed module differently", "input:\n"+strings.Join(sa, "\n")+"\nprinted:\n"+strings.Join(sb, "\n"), y)
+				return
+			}
+		}
+		mu.Lock()
+		ok++
+		mu.Unlock()
+	})
+	c.Extra["stress_corpus_programs"] = len(jobs)
+	c.Extra["stress_corpus_agree"] = ok
+	c.Extra["stress_corpus_skipped"] = skipped
+	c.Valid(int64(ok))
 }
 
 func replayC01(c *fw.Check, path string) {
